@@ -6,12 +6,15 @@
 // net.IP, the elements of Txt and TypeBitMap, the options of OPT, appended
 // records/OPTs, truncation, deletion, shared record pointers and shared rdata
 // slices), clock moves of the stored items (so the SubtractTTL path and the
-// lazy path are both taken) and /flush. It prints what the rest of the chain
+// lazy path are both taken), /flush, and the cache's own dump and load (GET
+// /dump, POST /load_dump with several different entries per block, with the
+// header word of every observed message carrying Compress). It prints what the rest of the chain
 // was handed on every execution and the final value of every kept message as
 // Judge.C10.case literals.
 package main
 
 import (
+	"bytes"
 	"context"
 	"fmt"
 	"net"
@@ -135,10 +138,14 @@ func setHdr(m *dns.Msg, w uint32) {
 	m.AuthenticatedData = w&0x0020 != 0
 	m.CheckingDisabled = w&0x0010 != 0
 	m.Rcode = int(w & 15)
+	m.Compress = w&0x10000 != 0
 }
 
 func getHdr(m *dns.Msg) uint32 {
 	w := uint32(m.Opcode&15)<<11 | uint32(m.Rcode&15)
+	if m.Compress {
+		w |= 0x10000
+	}
 	for _, b := range []struct {
 		on  bool
 		bit uint32
@@ -234,12 +241,23 @@ func buildMsg(id string, p pay, qid uint32) *dns.Msg {
 	return m
 }
 
+// aBytes: the address bytes of an A record. Unpack builds the 16 byte
+// IPv4-in-IPv6 form; the last four bytes of the same backing array are the address.
+func aBytes(x *dns.A) []byte {
+	if len(x.A) == 16 {
+		if v4 := x.A.To4(); v4 != nil {
+			return v4
+		}
+	}
+	return x.A
+}
+
 func readRR(id string, r dns.RR) rval {
 	h := r.Header()
 	v := rval{name: parseTag(id, h.Name, "n", "."), typ: uint32(h.Rrtype), ttl: h.Ttl}
 	switch x := r.(type) {
 	case *dns.A:
-		for _, b := range x.A {
+		for _, b := range aBytes(x) {
 			v.data = append(v.data, uint32(b))
 		}
 	case *dns.AAAA:
@@ -304,7 +322,7 @@ func serSec(b []byte, l []rval) []byte {
 func (v mval) sum() uint64 {
 	var b []byte
 	b = u16(b, v.id)
-	b = u16(b, v.hdr)
+	b = u32(b, v.hdr)
 	b = append(b, byte(len(v.q)))
 	for _, t := range v.q {
 		b = u16(b, t)
@@ -411,7 +429,7 @@ func rdKind(r dns.RR) string {
 func rdLen(r dns.RR) int {
 	switch x := r.(type) {
 	case *dns.A:
-		return len(x.A)
+		return len(aBytes(x))
 	case *dns.AAAA:
 		return len(x.AAAA)
 	case *dns.TXT:
@@ -471,7 +489,7 @@ func applyMut(id string, held []*dns.Msg, h int, mu mut) {
 		if r != nil && mu.j >= 0 && mu.j < rdLen(r) {
 			switch x := r.(type) {
 			case *dns.A:
-				x.A[mu.j] = byte(mu.v)
+				aBytes(x)[mu.j] = byte(mu.v)
 			case *dns.AAAA:
 				x.AAAA[mu.j] = byte(mu.v)
 			case *dns.TXT:
@@ -600,6 +618,9 @@ type world struct {
 	nHit  int
 	nLazy int
 	nX    int
+	dump  []byte
+	nDump int
+	nLoad int
 }
 
 func newWorld(id string, lazy bool, size int) *world {
@@ -736,6 +757,40 @@ func (w *world) run(ops []hop, gen func(w *world, expired map[uint32]bool) (hop,
 				delete(expired, k)
 			}
 			w.hops = append(w.hops, "HFlush")
+		case "dump":
+			rec := httptest.NewRecorder()
+			w.c.Api().ServeHTTP(rec, httptest.NewRequest("GET", "/dump", nil))
+			if rec.Code != 200 { // every stored message is a copy of an answer that packs
+				if w.viol == "" {
+					w.viol = fmt.Sprintf("the cache cannot dump its own stored messages (GET /dump: %d %s): a stored copy is not the answer that was stored", rec.Code, strings.TrimSpace(rec.Body.String()))
+				}
+				return
+			}
+			w.dump = append([]byte(nil), rec.Body.Bytes()...)
+			w.nDump++
+			w.hops = append(w.hops, "HDump")
+		case "load":
+			if w.dump == nil {
+				return
+			}
+			rec := httptest.NewRecorder()
+			w.c.Api().ServeHTTP(rec, httptest.NewRequest("POST", "/load_dump", bytes.NewReader(w.dump)))
+			if rec.Code != 200 {
+				if w.viol == "" {
+					w.viol = fmt.Sprintf("the cache cannot load the dump it wrote (POST /load_dump: %d %s): a stored copy is not the answer that was stored", rec.Code, strings.TrimSpace(rec.Body.String()))
+				}
+				return
+			}
+			w.nLoad++
+			var items []string
+			for k := uint32(1); k <= 3; k++ {
+				key := cache.VerifGetMsgKey(query_context.NewContext(queryMsg(k, 0)).Q())
+				w.refreshTTL0(k, key)
+				if it := w.c.VerifC10Item(key); it != nil {
+					items = append(items, hx.Tuple(hx.N(uint64(k)), hx.N(readMsg(w.id, it).sum())))
+				}
+			}
+			w.hops = append(w.hops, hx.App("HLoad", hx.List(items)))
 		}
 	}
 	for _, o := range ops {
@@ -773,7 +828,7 @@ func (w *world) emit(out *hx.Writer, kind string) {
 		ID:  w.id,
 		Coq: hx.App("Case", hx.Bool(w.lazy), hx.List(w.hops), hx.NList(finals), hx.List(items)),
 		Desc: map[string]any{"kind": kind, "lazy": w.lazy, "execs": w.nX, "hits": w.nHit, "lazy_hits": w.nLazy,
-			"mutations": w.nMut, "held": len(w.held)},
+			"mutations": w.nMut, "held": len(w.held), "dumps": w.nDump, "loads": w.nLoad},
 		FKey: kind,
 	})
 }
@@ -1045,8 +1100,97 @@ func catalogue() []scripted {
 			everyField(0, 0, 0), everyField(1, 0, 1),
 			[]hop{x(2, 1, 3, keep, keep), x(2, 1, 4, keep, nw(stdPay(1, 7)))}, everyField(2, 0, 0),
 			[]hop{x(0, 1, 5, keep, keep), x(1, 1, 6, nw(stdPay(1, 4)), nw(stdPay(1, 3))), x(1, 1, 7, keep, keep)})})
+		// the cache's own dump and load: two and three different entries in one
+		// block; hits before and after the dump (repeated names, Compress on and
+		// off), writes, /flush, load, hits on every key of the block, load again
+		for _, cmp := range []uint32{0, 0x10000} {
+			pa := pay{hdrOK | cmp, []uint32{1}, []rr{{1, tA, 5000, 4, 1}, {1, tA, 5000, 4, 2}, {1, tAAAA, 6000, 16, 3}}, []rr{{1, tTXT, 7000, 2, 1}}, []rr{{0, tOPT, 0, 1, 1}, {1, tTXT, 8000, 3, 4}}}
+			pb := pay{hdrOK, []uint32{2}, []rr{{2, tAAAA, 4000, 16, 7}, {2, tTXT, 4500, 1, 7}}, nil, nil}
+			pc := pay{0x8183 | cmp, []uint32{3}, nil, []rr{{3, tTXT, 9000, 2, 9}, {3, tA, 9500, 4, 9}}, nil}
+			out = append(out, scripted{lazy, cat(
+				[]hop{x(0, 1, 1, nw(pa), keep), x(1, 2, 2, nw(pb), keep), x(0, 1, 3, keep, keep), x(1, 2, 4, keep, keep),
+					{kind: "dump"}, x(2, 1, 5, keep, keep), x(2, 2, 6, keep, keep)},
+				everyField(0, 0, 0), everyField(2, 0, 1), everyField(5, 0, 0),
+				[]hop{{kind: "flush"}, x(0, 1, 7, keep, keep), {kind: "load"}, x(0, 1, 8, keep, keep), x(1, 2, 9, keep, keep)},
+				everyField(7, 0, 0),
+				[]hop{x(2, 2, 10, keep, keep), x(2, 1, 11, keep, keep), {kind: "dump"}, x(0, 1, 12, keep, keep)})})
+			out = append(out, scripted{lazy, []hop{
+				x(0, 1, 1, nw(pa), keep), x(1, 2, 2, nw(pb), keep), x(2, 3, 3, nw(pc), keep), {kind: "age", k: 2, secs: 2},
+				x(0, 3, 4, keep, keep), {kind: "dump"}, x(0, 3, 5, keep, keep), x(0, 1, 6, nw(pb), keep), x(1, 2, 7, nw(pa), keep),
+				{kind: "load"}, x(0, 1, 8, keep, keep), x(0, 2, 9, keep, keep), x(0, 3, 10, keep, keep),
+				mu(7, mut{kind: "MSetByte", s: 0, i: 0, j: 0, v: 255}), mu(8, mut{kind: "MSetTtl", s: 0, i: 0, v: 0}),
+				x(1, 1, 11, keep, keep), x(1, 2, 12, keep, keep), x(1, 3, 13, keep, keep),
+				{kind: "load"}, x(2, 1, 14, keep, keep), x(2, 2, 15, keep, keep), x(2, 3, 16, keep, keep)}})
+		}
 	}
 	return out
+}
+
+// safePay: an answer that survives Pack/Unpack unchanged (what a dump holds).
+func safePay(r *hx.RNG, k uint32) pay {
+	types := []uint32{tA, tAAAA, tTXT}
+	sect := func(max int, opt bool) []rr {
+		var out []rr
+		for n := r.Intn(max + 1); n > 0; n-- {
+			if opt && r.Chance(1, 3) {
+				out = append(out, rr{0, tOPT, 0, r.Intn(3), uint64(r.Intn(4))})
+				continue
+			}
+			t := hx.Pick(r, types)
+			n := map[uint32]int{tA: 4, tAAAA: 16, tTXT: r.Range(1, 3)}[t]
+			out = append(out, rr{uint32(r.Range(1, 3)), t, uint32(hx.Pick(r, []int{1000, 1001, 5000, 100000, 4294967295})), n, uint64(r.Intn(4))})
+		}
+		return out
+	}
+	p := pay{hdrOK, []uint32{k}, sect(3, false), sect(2, false), sect(3, true)}
+	switch r.Intn(8) {
+	case 0:
+		p.hdr = 0x8183
+	case 1:
+		p.hdr = 0x85b0
+	case 2:
+		p.hdr = 0x8380 // refused
+	}
+	if r.Chance(1, 3) {
+		p.hdr |= 0x10000 // Compress
+	}
+	return p
+}
+
+// genDumpHistory: stores of answers that survive the wire, lookups, writes,
+// dumps, loads and /flush over three keys (no expiry, nothing handed back).
+func genDumpHistory(r *hx.RNG) func(w *world, expired map[uint32]bool) (hop, bool) {
+	n := r.Range(8, 18)
+	step := 0
+	return func(w *world, expired map[uint32]bool) (hop, bool) {
+		if step >= n {
+			return hop{}, false
+		}
+		step++
+		c := r.Intn(3)
+		k := uint32(r.Range(1, 3))
+		t := r.Intn(100)
+		switch {
+		case step <= 2 || (len(w.held) == 0 && t < 70):
+			return x(c, k, uint32(r.Intn(65536)), nw(safePay(r, k)), keep), true
+		case t < 40:
+			d := keep
+			if r.Chance(1, 3) {
+				d = nw(safePay(r, k))
+			}
+			return x(c, k, uint32(hx.Pick(r, []int{0, 1, 4660, 65535, r.Intn(65536)})), d, keep), true
+		case t < 62 && len(w.held) > 0:
+			h := r.Intn(len(w.held))
+			return mu(h, genMut(r, w, h)), true
+		case t < 78:
+			return hop{kind: "dump"}, true
+		case t < 92:
+			return hop{kind: "load"}, true
+		case t < 95:
+			return hop{kind: "age", k: k, secs: r.Range(1, 3)}, true
+		}
+		return hop{kind: "flush"}, true
+	}
 }
 
 // ---------- random histories ----------
@@ -1217,6 +1361,19 @@ func main() {
 		r := hx.NewRNG(o.Seed, id)
 		i := i
 		guard(out, id, func() { concurrent(out, id, r, i%2 == 1, i%4 == 3) })
+	}
+	nd := o.Count(1500, 30000) / 4
+	for i := 0; i < nd; i++ {
+		id := fmt.Sprintf("dmp:%d", i)
+		if !o.Want(id) {
+			continue
+		}
+		r := hx.NewRNG(o.Seed, id)
+		guard(out, id, func() {
+			w := newWorld(id, r.Bool(), hx.Pick(r, []int{0, 1024, 4096}))
+			w.run(nil, genDumpHistory(r))
+			w.emit(out, "dump-load")
+		})
 	}
 	n := o.Count(1500, 30000)
 	for i := 0; i < n; i++ {
